@@ -33,3 +33,6 @@ func verifSortUncles(uncles []*types.WorkObjectHeader) {
 		return bytes.Compare(uncles[i].Hash().Bytes(), uncles[j].Hash().Bytes()) < 0
 	})
 }
+
+// VerifProcAppendQueue performs one iteration of the ticker branch of Core.updateAppendQueue.
+func (c *Core) VerifProcAppendQueue() { c.procAppendQueue() }
